@@ -4,7 +4,7 @@ import numpy as np
 from vf import gen
 
 HOMOG = gen.HOMOG_KINDS
-EXTRA_HOMOG = ["IntAffine", "IntHomogeneous", "IntSimilarity", "MirrorRotation"]     # hostile but legal representations
+EXTRA_HOMOG = ["IntAffine", "IntHomogeneous", "IntSimilarity", "MirrorRotation", "ScaledHomogeneous"]     # hostile but legal representations
 ALL_KINDS_2D = HOMOG + ["TransformChain", "ThinPlateSplines", "PiecewiseAffine", "PythonPWA", "WithDims"]
 ALL_KINDS_3D = HOMOG + ["TransformChain", "WithDims"]
 
@@ -76,9 +76,9 @@ def make(rng, kind, d=2):
         return cls(c.copy()), (lambda: cls(c.copy()))
     if kind == "WithDims":
         if d == 3:
-            dims = [[0, 1], [1, 2], [2, 0, 1], [0, 2], np.array([True, False, True])][rng.integers(0, 5)]
+            dims = [[0, 1], [1, 2], [2, 0, 1], [0, 2], np.array([True, False, True]), [True, True, False], np.array([2, 0])][rng.integers(0, 7)]
         else:
-            dims = [[1, 0], [0, 1], [0]][rng.integers(0, 3)]
+            dims = [[1, 0], [0, 1], [0], np.array([False, True]), [True, True]][rng.integers(0, 5)]
         return mt.WithDims(dims), (lambda: mt.WithDims(dims))
     if kind == "TransformChain":
         k = int(rng.integers(2, 5))
